@@ -291,8 +291,15 @@ func TestVerifK8sHist(t *testing.T) {
 		}
 		if !bad && last != nil && len(cur) > 0 {
 			perm := vPermute(r, cur)
+			opsT, oksT := vMopTerms(h, func(step int) string {
+				var l []string
+				for name, p := range vKBFD(step) {
+					l = append(l, cPair(cStr(name), cN(uint64(*p.ReceiveInterval))))
+				}
+				return cCtor("MBfd", cList(l))
+			})
 			out.Case(30000+hi, "frrk8s-history", cPair(cSessList(cur), cSessList(perm)),
-				map[string]any{"sessions": cur, "node": node, "ok": true, "cfg": vKProject(*last), "history": h})
+				map[string]any{"sessions": cur, "node": node, "ok": true, "cfg": vKProject(*last), "history": h, "ops_coq": opsT, "oks_coq": oksT})
 		}
 	}
 }
